@@ -220,7 +220,7 @@ import WallGo.hydrodynamicsTemplateModel as _HT
 
 HARNESSES = [
     # the bound that makes the template LTE solver return its runaway sentinel
-    HarnessDef("template-maxAl", _h_maxal, [dict(part="residual"), dict(part="sentinels")], max_paths=200, timeout_s=60,
+    HarnessDef("template-maxAl", _h_maxal, [dict(part="residual"), dict(part="sentinels")], [dict(part="residual")], max_paths=200, timeout_s=60, timeout_s_thorough=60,
                axioms=_AX15, encodes=[_HT.HydrodynamicsTemplateModel.maxAl, _HT.HydrodynamicsTemplateModel._eqWall],
                random_validation=2, concrete_alarms=False, feas_timeout_ms=300),
     HarnessDef("lte-matching", h_lte_matching, [dict()], max_paths=400, timeout_s=60, axioms=AX,
